@@ -226,21 +226,28 @@ func c04Run(j vs.Job) *vs.JobResult {
 				extras = append(extras, c04Pair{b, c})
 			}
 		}
-		mandatory := []c04Pair{{0xee, 0xee}, {0x7e, '1'}}
-		var sets [][]c04Pair
-		sets = append(sets, nil)
-		for i := range extras {
-			sets = append(sets, []c04Pair{extras[i]})
-			for k := i + 1; k < len(extras); k++ {
-				sets = append(sets, []c04Pair{extras[i], extras[k]})
+		// what every usable table has: the leader itself escaped and '~' protected — with the built-in codes,
+		// with the leader escaped by another code (the doubled leader is then undefined), and with the
+		// doubled leader standing for '~'
+		mandatories := [][]c04Pair{{{0xee, 0xee}, {0x7e, '1'}}, {{0xee, '0'}, {0x7e, '1'}}, {{0xee, '0'}, {0x7e, 0xee}}}
+		type tbl struct{ mandatory, set []c04Pair }
+		var sets []tbl
+		for _, m := range mandatories {
+			sets = append(sets, tbl{m, nil})
+			for i := range extras {
+				sets = append(sets, tbl{m, []c04Pair{extras[i]}})
+				for k := i + 1; k < len(extras); k++ {
+					sets = append(sets, tbl{m, []c04Pair{extras[i], extras[k]}})
+				}
 			}
 		}
 		payloads := c04Payloads(3)
-		for si, set := range sets {
+		for si, ts := range sets {
 			if si%p.N != p.Shard {
 				continue
 			}
-			pairs := append(append([]c04Pair{}, mandatory...), set...)
+			set := ts.set
+			pairs := append(append([]c04Pair{}, ts.mandatory...), set...)
 			js := c04TableJSON(pairs)
 			var t escapeTable
 			if err := json.Unmarshal([]byte(js), &t); err != nil {
@@ -400,7 +407,7 @@ func init() {
 	vs.Register(&vs.Check{
 		ID:    "C04",
 		Level: "exploration",
-		Rule: "both built-in tables (as the client decodes them from JSON) and every announced table made of the two mandatory entries plus <= 2 extra entries over bytes {00,0d,18,'1','A',7e,ee,ff} x codes {'1','A','B',ee,00}; payloads: all 256 single bytes and every string of length <= 4 (built-in) / <= 3 over {ee,'~','1','A',0d,18,'x'}; " +
+		Rule: "both built-in tables (as the client decodes them from JSON) and every announced table made of the two mandatory entries (leader and '~', with the built-in codes, with the leader escaped as (ee,'0'), and with (ee,ee) standing for '~') plus <= 2 extra entries over bytes {00,0d,18,'1','A',7e,ee,ff} x codes {'1','A','B',ee,00}; payloads: all 256 single bytes and every string of length <= 4 (built-in) / <= 3 over {ee,'~','1','A',0d,18,'x'}; " +
 			"for built-in and single-extra tables every split point of the escaped stream x every output buffer size through the real escapeReader; every undefined (leader, code) pair; the zstd+escape reader stack over 6 buffer sizes and ~48 split points; binary uploads in the world with a wire monitor",
 		Assumptions: []string{"tables that escapeCharsToTable accepts although they are not injective, or whose codes are themselves protected bytes, are only checked for 'no panic'"},
 		QuickBudget: 100, ThoroughBudget: 600, DiedIsViolation: true,
